@@ -133,7 +133,10 @@ impl<R: Read + Seek> ReadBox<&mut R> for TrunBox {
             sample_cts.reserve(sample_count as usize);
         }
 
-        for _ in 0..sample_count {
+        // Without per-sample fields there is nothing to read (and sample_count is not bounded
+        // by the box size): do not spin sample_count times.
+        let per_sample_entries = if sample_size > 0 { sample_count } else { 0 };
+        for _ in 0..per_sample_entries {
             if TrunBox::FLAG_SAMPLE_DURATION & flags > 0 {
                 let duration = reader.read_u32::<BigEndian>()?;
                 sample_durations.push(duration);
